@@ -535,6 +535,15 @@ package decimal
 //@   ensures p10(k+1) == 10*p10(k) && p10(k) >= 1
 //@   axiom
 
+//@ lemma mul_eq(a, b, c)
+//@   requires a == b
+//@   ensures a*c == b*c
+
+//@ lemma round_cmp(d, R, L)
+//@   requires 0 <= d && d <= 9 && 0 <= L && L < R
+//@   ensures (2*(d*R + L) > 10*R <==> (d > 5 || (d == 5 && L > 0))) && (2*(d*R + L) == 10*R <==> (d == 5 && L == 0)) &&
+//@           (2*(d*R + L) >= 10*R <==> d >= 5) && (d*R + L > 0 <==> (d > 0 || L > 0)) && 0 <= d*R + L && d*R + L < 10*R
+
 //@ lemma mod_p10_down(x, a, b)
 //@   requires 0 <= b && b <= a && a <= 18 && x >= 0 && x % p10(a) == 0
 //@   ensures x % p10(b) == 0
